@@ -29,6 +29,29 @@ JClean(r) ==
       \* non-trivial: leading/trailing/double or non-U+0020 whitespace present
       ~IsClean(r.v) /\ NoWs(r.v) # <<>>)
 
+\* very long texts (tens of thousands of characters): what can be checked in one pass.  ws = one flag per character of the
+\* text (whitespace or not), wb = the word boundaries returned, fullws / removews = the same flags for the characters of
+\* full() and remove(), cleanws for clean()
+\* the words as a fold over the flags: acc = <<ranges, start of the open word or 0>>, k = position (1-based)
+BoundsOf(ws) ==
+    LET n == Len(ws)
+        step(acc, k) ==
+            LET st == IF ~ws[k] /\ (k = 1 \/ ws[k - 1]) THEN k ELSE acc[2]
+            IN IF ~ws[k] /\ (k = n \/ ws[k + 1]) THEN <<Append(acc[1], <<st - 1, k>>), 0>> ELSE <<acc[1], st>>
+    IN FoldLeft(step, <<<<>>, 0>>, [k \in 1..n |-> k])[1]
+NonWsCount(ws) == Cardinality({k \in 1..Len(ws) : ~ws[k]})
+Alternating(fl) == /\ \A k \in 1..Len(fl) : fl[k] = (k % 2 = 0)
+JCleanLong(r) ==
+    LET k == NonWsCount(r.ws)
+        nw == Len(BoundsOf(r.ws))
+    IN Verdict(<<
+        <<"C11:word_boundaries", r.wb = BoundsOf(r.ws)>>,
+        <<"C11:remove_is_text_without_whitespace", Len(r.removews) = k /\ \A j \in 1..Len(r.removews) : ~r.removews[j]>>,
+        <<"C11:full_separates_every_character", Len(r.fullws) = (IF k = 0 THEN 0 ELSE 2 * k - 1) /\ Alternating(r.fullws)>>,
+        <<"C11:clean_is_words_joined_by_single_spaces", NonWsCount(r.cleanws) = k /\ Len(r.cleanws) = (IF nw = 0 THEN 0 ELSE k + nw - 1)
+                                                       /\ Len(BoundsOf(r.cleanws)) = nw>>
+      >>, <<>>, FALSE, Len(r.ws) > 16384)
+
 JPair(r) ==
     IF ~(NoMixed(r.fv) /\ NoMixed(r.tv) /\ IsClean(r.fv) /\ IsClean(r.tv) /\ Content(r.fv) = Content(r.tv)) THEN Skip
     ELSE Verdict(<<
@@ -81,6 +104,7 @@ JCorrupt(r) ==
 Judge(r) ==
     IF r.st # "ok" THEN [why |-> <<r.st>>, drift |-> <<>>, skip |-> FALSE, nt |-> FALSE]
     ELSE CASE r.kind = "clean" -> JClean(r)
+           [] r.kind = "cleanlong" -> JCleanLong(r)
            [] r.kind = "pair" -> JPair(r)
            [] r.kind = "repair" -> JRepair(r)
            [] OTHER -> JCorrupt(r)
